@@ -42,7 +42,7 @@ type genOutcome struct {
 
 func partsNonEmpty(ps []proto.Part) bool {
 	for _, p := range ps {
-		if p.Text != "" || p.Ref != "" || p.Value != "" {
+		if p.Text != "" || p.Ref != "" || p.Value != "" || p.Tmpl != "" || p.DocRef != "" {
 			return true
 		}
 	}
